@@ -152,9 +152,9 @@ def main(argv):
                 return 1
             return 0
 
-        ngen = 8 if tier == "quick" else 60
-        ncorp = 4 if tier == "quick" else 30
-        nsched = 10 if tier == "quick" else 30
+        ngen = 12 if tier == "quick" else 60
+        ncorp = 6 if tier == "quick" else 30
+        nsched = 14 if tier == "quick" else 30
         cands = []
         for g in range(ngen):
             size = "heavy" if g % 4 != 3 else "small"
